@@ -52,8 +52,36 @@ def label (c : Cfg) (s : St) (t : Tid) : Option Ev :=
 
 abbrev StSet := Std.HashSet St
 
-def tauClosure (c : Cfg) (fuel : Nat) (start : List St) : StSet := Id.run do
-  let mut seen : StSet := {}
+/-- Acceptor state: a model state plus the result the consumer has received and recycled but not
+yet logged (`cr` is logged by the consumer closure only after `next()` has returned, i.e. after the
+previous data set was sent back, which may already have enabled the reader's next `fill_data`). -/
+abbrev ASt := St × Option (Nat × Nat)
+abbrev AStSet := Std.HashSet ASt
+
+def isMain : Tid → Bool
+  | .main => true
+  | _ => false
+
+def isRecycle (s : St) : Bool :=
+  match s.mn with
+  | .recycle _ => true
+  | _ => false
+
+/-- internal steps of the acceptor from `(s, pending)` -/
+def tauSteps (c : Cfg) (a : ASt) : List ASt :=
+  let (s, pend) := a
+  (tids s).filterMap fun t =>
+    if isMain t then
+      if pend.isSome then none                      -- the consumer logs `cr` before doing anything else
+      else if isRecycle s then
+        (step c s t).map fun s' => (s', s.delivered.getLast?)
+      else if (label c s t).isNone then (step c s t).map fun s' => (s', none)
+      else none
+    else if (label c s t).isNone then (step c s t).map fun s' => (s', pend)
+    else none
+
+def tauClosure (c : Cfg) (fuel : Nat) (start : List ASt) : AStSet := Id.run do
+  let mut seen : AStSet := {}
   let mut todo := start
   let mut f := fuel
   for s in start do seen := seen.insert s
@@ -61,31 +89,32 @@ def tauClosure (c : Cfg) (fuel : Nat) (start : List St) : StSet := Id.run do
     f := f - 1
     match todo with
     | [] => pure ()
-    | s :: rest =>
+    | a :: rest =>
       todo := rest
-      for t in tids s do
-        if (label c s t).isNone then
-          match step c s t with
-          | some s' => if !seen.contains s' then
-                          seen := seen.insert s'
-                          todo := s' :: todo
-          | none => pure ()
+      for a' in tauSteps c a do
+        if !seen.contains a' then
+          seen := seen.insert a'
+          todo := a' :: todo
   return seen
 
-def afterEvent (c : Cfg) (states : StSet) (e : Ev) : List St := Id.run do
-  let mut out : List St := []
-  for s in states do
-    for t in tids s do
-      if label c s t == some e then
-        match step c s t with
-        | some s' => out := s' :: out
-        | none => pure ()
+def afterEvent (c : Cfg) (states : AStSet) (e : Ev) : List ASt := Id.run do
+  let mut out : List ASt := []
+  for (s, pend) in states do
+    match e, pend with
+    | .cr d k, some p => if p == (d, k) then out := (s, none) :: out
+    | .cr _ _, none => pure ()
+    | _, _ =>
+      for t in tids s do
+        if !(isMain t && (pend.isSome || isRecycle s)) && label c s t == some e then
+          match step c s t with
+          | some s' => out := (s', pend) :: out
+          | none => pure ()
   return out
 
 /-- `none` = accepted (and a final state is reachable at the end); `some i` = the trace is not a
 behaviour of the model: event `i` (0-based) cannot happen, `i = length` = no final state -/
 def accept (c : Cfg) (trace : List Ev) : Option Nat := Id.run do
-  let mut cur : List St := [init]
+  let mut cur : List ASt := [(init, none)]
   let mut i := 0
   for e in trace do
     let cl := tauClosure c 100000 cur
@@ -94,7 +123,7 @@ def accept (c : Cfg) (trace : List Ev) : Option Nat := Id.run do
     cur := nxt
     i := i + 1
   let cl := tauClosure c 100000 cur
-  if cl.toList.any final then return none else return some i
+  if cl.toList.any (fun a => final a.1) then return none else return some i
 
 /-- (states, transitions, deadlocked non-final states, final states) of the whole reachable graph -/
 def explore (c : Cfg) (fuel : Nat) : Nat × Nat × Nat × Nat := Id.run do
